@@ -148,7 +148,7 @@ def check_cache_guarded(ck, cm: CacheModel, rule="C09.R3"):
             return any(fa.inside(n, w) for w in regions)
         helper_sections = [c for c in fa.calls() if isinstance(c.func, ast.Attribute) and isinstance(c.func.value, ast.Name) and c.func.value.id == "self"
                            and c.func.attr in guarded_whole and not in_region(c)
-                           and c.func.attr in (cm.evict.name, cm.insert.name, cm.mark_used.name, "_put_ref", "forget_call", "forget_function", "forget_everything")]
+                           and c.func.attr in (cm.evict.name, cm.insert.name, cm.mark_used_name, "_put_ref", "forget_call", "forget_function", "forget_everything")]
         if len(regions) + len(helper_sections) < 2:
             continue
         def writes_in(w):
@@ -163,7 +163,7 @@ def check_cache_guarded(ck, cm: CacheModel, rule="C09.R3"):
                 if isinstance(n, ast.Call) and isinstance(n.func, ast.Attribute):
                     if self_attr(n.func.value) in cm.mutable_slots and n.func.attr in ("append", "remove", "popleft", "pop", "clear", "appendleft"):
                         out.append(n)
-                    if isinstance(n.func.value, ast.Name) and n.func.value.id == "self" and n.func.attr in (cm.evict.name, cm.insert.name, cm.mark_used.name, "_put_ref"):
+                    if isinstance(n.func.value, ast.Name) and n.func.value.id == "self" and n.func.attr in (cm.evict.name, cm.insert.name, cm.mark_used_name, "_put_ref"):
                         out.append(n)
             return out
         wr = [w for w in regions if writes_in(w)] + helper_sections
@@ -190,11 +190,44 @@ def check_cache_guarded(ck, cm: CacheModel, rule="C09.R3"):
     return lock, decos
 
 
+def mutex_table_names(ck, mod):
+    """(table, lock) by role when _mutex_for_invocation itself no longer exists: the module-level dict whose
+    values are locks (a defaultdict of RLock, or a dict that some function stores RLock() into) and the
+    module-level lock."""
+    table = lock = None
+    for name, v in mod.assigns.items():
+        if isinstance(v, ast.Call) and A.call_attr(v) in ("RLock", "Lock"):
+            lock = name
+        elif isinstance(v, (ast.Call, ast.Dict)):
+            head = A.call_attr(v) if isinstance(v, ast.Call) else "dict"
+            if head in ("defaultdict", "dict", "OrderedDict", "WeakValueDictionary"):
+                locky = any(isinstance(c, ast.Call) and A.call_attr(c) in ("RLock", "Lock") for c in ast.walk(v))
+                if not locky:
+                    for fi in mod.all_funcs():
+                        for st in A.all_stmts(fi.node):
+                            if isinstance(st, ast.Assign) and any(isinstance(t, ast.Subscript) and isinstance(t.value, ast.Name) and t.value.id == name for t in st.targets) \
+                                    and any(isinstance(c, ast.Call) and A.call_attr(c) in ("RLock", "Lock") for c in ast.walk(st.value)):
+                                locky = True
+                if locky:
+                    table = name
+    ck.need(table and lock, "runner_local: per-call mutex table / its lock not found")
+    return table, lock
+
+
 def mutex_table(ck, mod):
     """(table name, table lock name, kind of the per-call mutexes) of runner_local, by role: the table is
     the module-level container that _mutex_for_invocation looks the mutex up in, its lock the
     module-level lock that function holds meanwhile."""
-    mi = ck.repo.func(RL + "._mutex_for_invocation")
+    mi = ck.repo.try_func(RL + "._mutex_for_invocation")
+    if mi is None:
+        # the lookup was inlined into its caller and removed: find table and lock by role
+        t_, l_ = mutex_table_names(ck, mod)
+        kind_ = None
+        for n_ in ast.walk(mod.tree):
+            if isinstance(n_, ast.Call) and A.call_attr(n_) in ("RLock", "Lock") and not (isinstance(mod.assigns.get(l_), ast.Call) and n_ is mod.assigns.get(l_)):
+                kind_ = A.call_attr(n_)
+        ck.need(kind_, "runner_local: kind of the per-call mutexes not found")
+        return t_, l_, kind_
     used = [n.id for n in A.walk_body(mi.node) if isinstance(n, ast.Name)]
     table = table_lock = kind = None
     for name, v in mod.assigns.items():
@@ -277,18 +310,23 @@ def check(ck):
     # ---- R2
     ck.ob(R2, RL + "::mutex-reentrant", table_kind == "RLock", "per-call mutexes are re-entrant (RLock)" if table_kind == "RLock" else
           "per-call mutexes are not re-entrant: a function calling itself with equal arguments deadlocks", mod.relpath)
-    mi = FA(ck, RL + "._mutex_for_invocation")
-    r = mi.one(mi.returns(), "return")
-    okk = isinstance(r.value, ast.Subscript) and A.norm(r.value.value) == table and isinstance(r.value.slice, ast.Tuple) \
-        and [A.norm(e) for e in r.value.slice.elts] == ["fn_reference_with_args.fn_reference.qualified_name", "fn_reference_with_args.arg_hash"]
-    if not okk and not isinstance(r.value, ast.Subscript):
-        # get-or-create spelled out: the looked-up key is the pair, and the returned mutex comes out of the table
-        keys = {mi.xnorm(t.slice) for st in mi.stmts(ast.Assign) for t in st.targets if isinstance(t, ast.Subscript) and A.norm(t.value) == table}
-        keys |= {mi.xnorm(c.args[0]) for c in mi.calls() if A.call_attr(c) in ("get", "setdefault") and A.norm(A.call_recv(c)) == table and c.args}
-        okk = keys == {"(fn_reference_with_args.fn_reference.qualified_name, fn_reference_with_args.arg_hash)"} and \
-            ("global:" + table in mi.deps(r.value) or "call:get" in mi.deps(r.value) or "call:setdefault" in mi.deps(r.value))
-    ck.ob(R2, mi.key(r, "mutex-key"), okk, "one mutex per (versioned function name, argument hash)" if okk else
-          "the per-call mutex is not keyed by (qualified_name, arg_hash) of the invocation: distinct calls serialise or equal calls do not", mi.where(r))
+    helper_exists = ck.repo.try_func(RL + "._mutex_for_invocation") is not None
+    if helper_exists:
+        mi = FA(ck, RL + "._mutex_for_invocation")
+        r = mi.one(mi.returns(), "return")
+        okk = isinstance(r.value, ast.Subscript) and A.norm(r.value.value) == table and isinstance(r.value.slice, ast.Tuple) \
+            and [A.norm(e) for e in r.value.slice.elts] == ["fn_reference_with_args.fn_reference.qualified_name", "fn_reference_with_args.arg_hash"]
+        if not okk and not isinstance(r.value, ast.Subscript):
+            # get-or-create spelled out: the looked-up key is the pair, and the returned mutex comes out of the table
+            keys = {mi.xnorm(t.slice) for st in mi.stmts(ast.Assign) for t in st.targets if isinstance(t, ast.Subscript) and A.norm(t.value) == table}
+            keys |= {mi.xnorm(c.args[0]) for c in mi.calls() if A.call_attr(c) in ("get", "setdefault") and A.norm(A.call_recv(c)) == table and c.args}
+            okk = keys == {"(fn_reference_with_args.fn_reference.qualified_name, fn_reference_with_args.arg_hash)"} and \
+                ("global:" + table in mi.deps(r.value) or "call:get" in mi.deps(r.value) or "call:setdefault" in mi.deps(r.value))
+        ck.ob(R2, mi.key(r, "mutex-key"), okk, "one mutex per (versioned function name, argument hash)" if okk else
+              "the per-call mutex is not keyed by (qualified_name, arg_hash) of the invocation: distinct calls serialise or equal calls do not", mi.where(r))
+    else:
+        from .keys import _mutex_key_in_host
+        _mutex_key_in_host(ck, R2)
     rl = FA(ck, RL + ".memento_run_local")
     inv = rl.fi.params[1] if len(rl.fi.params) > 1 else "fn_reference_with_args"
     holders = {"_mutex_for_invocation"} | _mutex_holding_context_managers(ck, mod)
@@ -296,6 +334,13 @@ def check(ck):
     def holds_own_mutex(e):
         if isinstance(e, ast.Call) and A.call_attr(e) in holders and [A.norm(a) for a in e.args] == [inv]:
             return True
+        if not helper_exists:
+            # `m = TABLE[(qualified name, arg hash)]` under the table lock, then `with m:`
+            x = rl.expand(e) if rl.nodes(e) else e
+            if isinstance(x, ast.Subscript) and isinstance(x.value, ast.Name) and x.value.id == table:
+                return True
+            if isinstance(x, ast.Call) and A.call_attr(x) in ("get", "setdefault") and isinstance(A.call_recv(x), ast.Name) and A.call_recv(x).id == table:
+                return True
         if isinstance(e, ast.Call) and A.call_attr(e) in mutex_wrappers and len(e.args) == 1:
             return holds_own_mutex(e.args[0])
         return False
